@@ -284,7 +284,7 @@ func (h *History) reply(conn int, rid [16]byte, rep Reply) {
 			}
 		}
 		r.Replies = append(r.Replies, rep)
-		if len(r.Replies) > 1 && h.w.keepLog {
+		if (len(r.Replies) > 1 || r.Op.TFlag&tfAck != 0) && h.w.keepLog {
 			_, st := stackClass()
 			h.w.logf("SECOND REPLY to c%d#%d built by [%s]", r.Client, r.Idx, st)
 		}
